@@ -26,6 +26,9 @@ pub enum Role {
     Correct,
     /// harness-operated validator holding its real keys
     Byzantine,
+    /// real node that is restarted with empty state during the run (it may then contradict its own
+    /// earlier votes, which is why it is counted inside the Byzantine stake budget)
+    Amnesiac,
 }
 
 #[derive(Clone, Copy, Debug, PartialEq, Eq)]
@@ -41,12 +44,13 @@ pub enum FaultEvent {
     Partition { at_ms: u64, heal_ms: u64, group: Vec<u8> },
     Crash { at_ms: u64, node: usize },
     Stall { at_ms: u64, node: usize, ms: u64 },
+    Restart { at_ms: u64, node: usize },
 }
 
 impl FaultEvent {
     fn at(&self) -> u64 {
         match self {
-            Self::Partition { at_ms, .. } | Self::Crash { at_ms, .. } | Self::Stall { at_ms, .. } => *at_ms,
+            Self::Partition { at_ms, .. } | Self::Crash { at_ms, .. } | Self::Stall { at_ms, .. } | Self::Restart { at_ms, .. } => *at_ms,
         }
     }
 }
@@ -170,6 +174,16 @@ pub fn draw_cfg(p: &Profile) -> ClusterCfg {
             }
         }
     }
+    // a Byzantine-budgeted validator may instead be a real node that suffers amnesia restarts
+    let mut amnesiacs: Vec<usize> = Vec::new();
+    if !p.liveness {
+        for i in 0..n {
+            if roles[i] == Role::Byzantine && kernel::choose(CFG, 4) == 1 {
+                roles[i] = Role::Amnesiac;
+                amnesiacs.push(i);
+            }
+        }
+    }
     let byz_nodes: Vec<usize> = (0..n).filter(|i| roles[*i] == Role::Byzantine).collect();
 
     let dissem = match kernel::choose(CFG, 6) {
@@ -257,6 +271,12 @@ pub fn draw_cfg(p: &Profile) -> ClusterCfg {
                 faults.push(FaultEvent::Crash { at_ms: kernel::choose(CFG, fault_window.max(1)), node: i });
             }
         }
+        for &i in &amnesiacs {
+            let k = 1 + kernel::choose(CFG, 2);
+            for _ in 0..k {
+                faults.push(FaultEvent::Restart { at_ms: 500 + kernel::choose(CFG, fault_window.max(1)), node: i });
+            }
+        }
         if permille(p.stall_permille) {
             let k = 1 + kernel::choose(CFG, 3);
             for _ in 0..k {
@@ -279,7 +299,7 @@ pub fn draw_cfg(p: &Profile) -> ClusterCfg {
                     *at_ms = (*at_ms).min(ts);
                     *heal_ms = (*heal_ms).min(ts);
                 }
-                FaultEvent::Crash { at_ms, .. } => *at_ms = (*at_ms).min(ts),
+                FaultEvent::Crash { at_ms, .. } | FaultEvent::Restart { at_ms, .. } => *at_ms = (*at_ms).min(ts),
                 FaultEvent::Stall { at_ms, ms, .. } => {
                     *at_ms = (*at_ms).min(ts);
                     *ms = (*ms).min(ts.saturating_sub(*at_ms));
@@ -356,7 +376,15 @@ pub fn register_puppet(i: usize, net: &SharedNet) -> Vec<Box<dyn std::any::Any>>
     keep
 }
 
-async fn fault_scheduler(net: SharedNet, faults: Vec<FaultEvent>, cancels: Vec<Option<CancellationToken>>) {
+async fn fault_scheduler(
+    net: SharedNet,
+    faults: Vec<FaultEvent>,
+    cancels: Vec<Option<CancellationToken>>,
+    vals: Vec<ValidatorInfo>,
+    stakes: Vec<u64>,
+    dissem: DissemKind,
+) {
+    let mut cancels = cancels;
     kernel::set_task_name("fault-scheduler");
     // expand partitions into (time, action) pairs
     enum Act {
@@ -364,6 +392,7 @@ async fn fault_scheduler(net: SharedNet, faults: Vec<FaultEvent>, cancels: Vec<O
         Heal,
         Crash(usize),
         Stall(usize, u64),
+        Restart(usize),
     }
     let mut acts: Vec<(u64, u32, Act)> = Vec::new();
     for (k, f) in faults.into_iter().enumerate() {
@@ -375,6 +404,7 @@ async fn fault_scheduler(net: SharedNet, faults: Vec<FaultEvent>, cancels: Vec<O
             }
             FaultEvent::Crash { at_ms, node } => acts.push((at_ms, k, Act::Crash(node))),
             FaultEvent::Stall { at_ms, node, ms } => acts.push((at_ms, k, Act::Stall(node, ms))),
+            FaultEvent::Restart { at_ms, node } => acts.push((at_ms, k, Act::Restart(node))),
         }
     }
     acts.sort_by_key(|a| (a.0, a.1));
@@ -396,6 +426,17 @@ async fn fault_scheduler(net: SharedNet, faults: Vec<FaultEvent>, cancels: Vec<O
                 if ms > 0 {
                     net.lock().unwrap().stall(i, ms);
                 }
+            }
+            Act::Restart(i) => {
+                // amnesia: the old incarnation is cancelled, a fresh node with the same keys and
+                // empty state takes over the validator's endpoints
+                kernel::event(&format!("amnesia-restart n{i}"));
+                kernel::fault("amnesia_restart");
+                if let Some(c) = &cancels[i] {
+                    c.cancel();
+                }
+                let h = spawn_node(i, &vals, &stakes, &net, dissem);
+                cancels[i] = Some(h.cancel.clone());
             }
         }
     }
@@ -474,7 +515,7 @@ async fn run_async(profile: &Profile, cfg: ClusterCfg) -> ClusterOutcome {
     let mut keep_alive = Vec::new();
     for i in 0..n {
         match cfg.roles[i] {
-            Role::Correct => handles.push(Some(spawn_node(i, &vals, &cfg.stakes, &net, cfg.dissem))),
+            Role::Correct | Role::Amnesiac => handles.push(Some(spawn_node(i, &vals, &cfg.stakes, &net, cfg.dissem))),
             Role::Byzantine => {
                 keep_alive.push(register_puppet(i, &net));
                 handles.push(None);
@@ -495,7 +536,7 @@ async fn run_async(profile: &Profile, cfg: ClusterCfg) -> ClusterOutcome {
         })));
     }
 
-    tokio::spawn(fault_scheduler(net.clone(), cfg.faults.clone(), cancels.clone()));
+    tokio::spawn(fault_scheduler(net.clone(), cfg.faults.clone(), cancels.clone(), vals.clone(), cfg.stakes.clone(), cfg.dissem));
     tokio::spawn(client(net.clone(), n, cfg.tx_per_s, pools.clone()));
     let local = tokio::task::LocalSet::new();
     let mut adv_state = adv::AdvShared::new(&cfg, net.clone());
